@@ -2,6 +2,7 @@ import OhkamiModel.Drv.C01
 import OhkamiModel.Drv.C02
 import OhkamiModel.Drv.C03
 import OhkamiModel.Drv.C05
+import OhkamiModel.Drv.C07
 import OhkamiModel.Drv.C08
 import OhkamiModel.Drv.C09
 import OhkamiModel.Drv.C10
@@ -31,6 +32,7 @@ def main (args : List String) : IO UInt32 := do
   | ["C02"] => loop stdin DrvC02.runCase; return 0
   | ["C03"] => loop stdin DrvC03.runCase; return 0
   | ["C05"] | ["C06"] => loop stdin DrvC05.runCase; return 0
+  | ["C07"] => loop stdin DrvC07.runCase; return 0
   | ["C08"] => loop stdin DrvC08.runCase; return 0
   | ["C09"] => loop stdin DrvC09.runCase; return 0
   | ["C10"] => loop stdin DrvC10.runCase; return 0
